@@ -298,7 +298,7 @@ def l2_gen(seed, families, big):
             ops.append(["src", "undef", n, "", 0])
             recent_undef = (recent_undef + [n])[-4:]
         else:
-            ops.append(["src", r.pick(["probe_ifdef", "probe_ifdefined", "probe_expand", "probe_call", "probe_ifndef"]), n, "", 0])
+            ops.append(["src", r.pick(["probe_ifdef", "probe_ifdefined", "probe_expand", "probe_call", "probe_ifndef", "probe_ifvalue", "probe_ifpaste", "probe_elif"]), n, "", r.below(1000)])
     # closing sweep: every name is probed at the end (subsumes "no stale / lost name")
     for n in names if not big else r.sample(names, 60):
         ops.append(["src", "probe_ifdef", n, "", 0])
@@ -311,7 +311,7 @@ def l2_render(plan):
     model = dict((k, ("obj", v)) for k, v in PREDEF_BODY.items())
     for k in PREDEF_DYNAMIC:
         model[k] = ("dyn", None)   # what they expand to is not modelled; that they are defined, and stop being special once redefined, is
-    args, src, exp = [], [], []
+    args, src, exp = [], ["#define CAT_(a,b) a##b", "#define XCAT_(a,b) CAT_(a,b)"], []
     pid = 0
     for where, kind, n, b, sep in plan["ops"]:
         FSHAPE = {"fdef": ("(x)", " x", "fn1"), "fdef0": ("()", "", "fn0"), "fdef2": ("(x,y)", " y x", "fn2"), "fdefv": ("(x,...)", " __VA_ARGS__ x", "fnv"), "fdefn": ("(args...)", " args", "fnn")}
@@ -347,7 +347,26 @@ def l2_render(plan):
         else:
             pid += 1
             d = n in model
-            if kind in ("probe_ifdef", "probe_ifdefined", "probe_ifndef"):
+            if kind in ("probe_ifvalue", "probe_ifpaste", "probe_elif"):
+                # the name's VALUE in a #if / #elif, spelt directly or pasted together from two halves: only for names
+                # that are undefined (0) or object-like with a single number as body
+                body = model[n][1] if d and model[n][0] == "obj" else None
+                if (d and (body is None or not body.isdigit())) or len(n) < 2:
+                    pid -= 1
+                    continue
+                cut = 1 + sep % (len(n) - 1)
+                spelt = n if kind != "probe_ifpaste" else "CAT_(%s,%s)" % (n[:cut], n[cut:])
+                # (both halves are identifiers themselves, and neither is a macro: pasting an identifier with a pp-number such
+                # as `4__` is another matter -- chibicc rejects `#if CAT_(__LP6,4__)` -- and belongs to macro expansion, not here)
+                if kind == "probe_ifpaste" and (not (n[cut:][0].isalpha() or n[cut:][0] == "_") or n[:cut] in model or n[cut:] in model):
+                    spelt = n
+                truth = bool(d and int(body) != 0)
+                if kind == "probe_elif":
+                    src.append("#if 0\n#elif %s\n\"T\" %d\n#else\n\"F\" %d\n#endif" % (spelt, pid, pid))
+                else:
+                    src.append("#if %s\n\"T\" %d\n#else\n\"F\" %d\n#endif" % (spelt, pid, pid))
+                exp.append('"%s" %d' % ("T" if truth else "F", pid))
+            elif kind in ("probe_ifdef", "probe_ifdefined", "probe_ifndef"):
                 if kind == "probe_ifdef":
                     src.append("#ifdef %s" % n)
                 elif kind == "probe_ifndef":
@@ -418,7 +437,7 @@ def l2_exec(cc, sdir, wid, plan):
         g = got[i] if i < len(got) else "<missing>"
         w = want[i] if i < len(want) else "<nothing>"
         if g != w:
-            k = "defined-state" if w[:3] in ('"D"', '"U"') else "replacement"
+            k = "defined-state" if w[:3] in ('"D"', '"U"') else "if-value" if w[:3] in ('"T"', '"F"') else "replacement"
             return k, "probe line %d: compiler says `%s`, dictionary says `%s`" % (i + 1, g, w)
     return "mismatch", "?"
 
@@ -773,10 +792,28 @@ def l3_l4_worker(cc, sdir, wid, master, start, step, families, deadline):
                     guard_def.add(k)
                 else:
                     want[k] = want.get(k, 0) + 1
+            # the same header NAME in two directories: a quoted include is looked up next to the including file first
+            twins = r.below(2)
+            if twins:
+                for dn in ("tw0", "tw1", "twi"):
+                    os.makedirs(os.path.join(wd, dn), exist_ok=True)
+                base_id = 90000
+                open(os.path.join(wd, "tw0", "same.h"), "w").write('"H" %d ;\n' % base_id)
+                open(os.path.join(wd, "tw1", "same.h"), "w").write('"H" %d ;\n' % (base_id + 1))
+                open(os.path.join(wd, "twi", "same.h"), "w").write('"H" %d ;\n' % (base_id + 2))
+                open(os.path.join(wd, "tw0", "use.h"), "w").write('#include "same.h"\n')
+                open(os.path.join(wd, "tw1", "use.h"), "w").write('#include "same.h"\n')
+                open(os.path.join(wd, "twi", "viaI.h"), "w").write('#include "same.h"\n')
+                seq = [("tw0/use.h", base_id), ("tw1/use.h", base_id + 1), ("twi/viaI.h", base_id + 2), ("tw0/use.h", base_id), ("tw1/use.h", base_id + 1)]
+                r.shuffle(seq)
+                for path, hid in seq[:r.range(2, 5)]:
+                    src_lines.insert(r.below(len(src_lines) + 1), '#include "%s"' % path)
+                    want[hid] = want.get(hid, 0) + 1
             src = "\n".join(src_lines) + "\n"
             with open(os.path.join(wd, "inc.c"), "w") as f:
                 f.write(src)
-            p = subprocess.run([cc, "-E", os.path.join(wd, "inc.c")], stdout=subprocess.PIPE, stderr=subprocess.PIPE)
+            p = subprocess.run([cc, "-E", "-I" + os.path.join(wd, "twi"), os.path.join(wd, "inc.c")], stdout=subprocess.PIPE, stderr=subprocess.PIPE)
+            res["l4_twin_headers"] = res.get("l4_twin_headers", 0) + twins
             res["l4_runs"] += 1
             res["l4_headers"] += len(hdrs)
             res["l4_guard_undefs"] = res.get("l4_guard_undefs", 0) + sum(1 for op, _ in ops if op == "undef")
@@ -788,9 +825,9 @@ def l3_l4_worker(cc, sdir, wid, master, start, step, families, deadline):
             if p.returncode != 0 or got != want:
                 bad = [k for k in sorted(set(want) | set(got)) if got.get(k, 0) != want.get(k, 0)][:3]
                 res["viol"].append(("l4 class=include-once", seed, {"engine": "histsim-l4", "seed": seed, "headers": dict((h, open(os.path.join(wd, h)).read()) for h in hdrs), "source": src,
-                                                                     "expected_counts": dict((hdrs[k], v) for k, v in want.items())},
+                                                                     "expected_counts": dict((hdrs[k], v) for k, v in want.items() if k < len(hdrs))},
                                     "chibicc -E exit %d; headers expanded a wrong number of times: %s\n%s" % (
-                                        p.returncode, ", ".join("%s x%d (expected x%d)" % (hdrs[k], got.get(k, 0), want.get(k, 0)) for k in bad), p.stderr.decode(errors="replace")[-300:])))
+                                        p.returncode, ", ".join("%s x%d (expected x%d)" % (hdrs[k] if k < len(hdrs) else "same.h#%d" % k, got.get(k, 0), want.get(k, 0)) for k in bad), p.stderr.decode(errors="replace")[-300:])))
             for h in hdrs:
                 os.unlink(os.path.join(wd, h))
             continue
@@ -842,7 +879,7 @@ def level34(cc, sdir, master, families, rep, stats, seconds):
         results = pool.starmap(l3_l4_worker, [(cc, sdir, w, master, w, NCPU, families, deadline) for w in range(NCPU)])
     hashes, samples = set(), []
     for r in results:
-        for k in ("l3_runs", "l3_probes", "l3_big", "l4_runs", "l4_headers", "l4_guard_undefs"):
+        for k in ("l3_runs", "l3_probes", "l3_big", "l4_runs", "l4_headers", "l4_guard_undefs", "l4_twin_headers"):
             stats[k] = stats.get(k, 0) + r.get(k, 0)
         hashes |= r["hashes"]
         samples += r["samples"]
@@ -982,6 +1019,7 @@ def main(argv):
             "l4_include_once_files": stats.get("l4_runs", 0),
             "l4_headers_included": stats.get("l4_headers", 0),
             "l4_include_guards_undefined_between_inclusions": stats.get("l4_guard_undefs", 0),
+            "l4_files_with_same_named_headers_in_several_directories": stats.get("l4_twin_headers", 0),
         },
         "components": {"real": ["/repo/hashmap.c (unmodified, ASan+UBSan)", "level 2: whole chibicc driver + cc1 preprocessor built from the working tree"],
                        "stub": ["level 1: error()/format() (error() reports an abort to the harness)"],
